@@ -180,7 +180,7 @@ func (h264dp *h264Depacketizer) depacketizeFuA(packet *Packet) (err error) {
 			MediaType: codec.MediaTypeVideo,
 			Payload:   make([]byte, frameLen)}
 
-		frame.Payload[0] = (header & 0x60) | (fuHeader & 0x1F)
+		frame.Payload[0] = (header & 0xE0) | (fuHeader & 0x1F)
 		offset := 1
 		for _, fragment := range h264dp.fragments {
 			payload := fragment.Payload()[2:]
